@@ -58,7 +58,7 @@ func TestVerifC07(t *testing.T) {
 		Runs:     map[string]int{"quick": 20000, "thorough": 800000},
 		Real:     []string{"ingest pipeline: HandleRegUpdates -> parseRegMessage -> NewRegistrationC2SWrapper -> ingestRegistration", "ValidateRegistration, covert policy, phantom blocklist, register/announce", "tryShareRegistrationOverAPI / GenerateC2SWrapper", "min / prefix / obfs4 parameter parsing and port selection"},
 		Stub:     []string{"liveness.Tester (table + call recorder)", "peer-station API (http.Post seam, recorder)", "detector (announcement recorder)", "ZMQ (harness writes into the ingest channel)"},
-		Rule: "enumerated: transport {min, prefix, obfs4} x source {API, Detector, BidirectionalAPI, DNS, DetectorPrescan} x each of 20 ways to break (or not) exactly one admission condition, as a single message; random: 1-8 messages per run with random combinations of breaks, duplicates, share-over-API on/off. " +
+		Rule: "enumerated: transport {min, prefix, obfs4} x source {API, Detector, BidirectionalAPI, DNS, DetectorPrescan} x each of 22 ways to break (or not) exactly one admission condition, as a single message; random: 1-8 messages per run with random combinations of breaks, duplicates, share-over-API on/off. " +
 			"Per message and family the model decides admitted / not admitted; observed: GetRegistrations(phantom), New announcements, liveness probe calls, peer-API posts. non-trivial = a message that breaks at least one condition (or a duplicate) was judged; distinct = (transport, source, break set, station config)",
 		Assume: []string{"messages whose completeness the property leaves open (present-but-empty secret, absent registrant address) are not generated", "a repeat of a message whose first copy was rejected is a don't-care"},
 	})
